@@ -27,8 +27,9 @@ MCInit ==
     /\ kr \in InitKr
     /\ lock = "free"
     /\ th = [t \in Threads |-> IdleThread]
-    /\ hist = [gen |-> {}, handles |-> {}, faults |-> 0]
+    /\ hist = [gen |-> {}, handles |-> {}, faults |-> 0, created |-> {}]
     /\ calls = [t \in Threads |-> 0]
+    /\ TLCSet(2, 0)
 
 AllDone == \A t \in Threads : th[t].pc = "idle" /\ th[t].h = NoPath /\ calls[t] = MaxCalls
 
